@@ -29,8 +29,11 @@ def viol(sig, detail):
     return {"property": "C19", "sig": sig, "kind": "rle", "detail": detail}
 
 
-def rows(name, lst, state, typ, unit):
-    return [{"Task": name, "Start": (INIT + a * unit).strftime(FMT), "Finish": (INIT + (a + ln) * unit).strftime(FMT), "State": state, "Type": typ} for a, ln in lst]
+INITS = (INIT, INIT.replace(tzinfo=datetime.timezone(datetime.timedelta(hours=9))), INIT.replace(tzinfo=datetime.timezone(datetime.timedelta(hours=-5, minutes=-30))))  # naive and timezone-aware starts
+
+
+def rows(name, lst, state, typ, unit, init=INIT):
+    return [{"Task": name, "Start": (init + a * unit).strftime(FMT), "Finish": (init + (a + ln) * unit).strftime(FMT), "State": state, "Type": typ} for a, ln in lst]
 
 
 def _long_logs(alpha):
@@ -116,36 +119,37 @@ def work_rle(chunk):
                     o.state_record_list[length // 2] = seq[length // 2]
                 # chart rows (tasks, components directly; workers / facilities through team / workplace)
                 if margin in (0.5, 1.0) and length <= 5:
+                  for init_ in INITS:
                     for unit in (datetime.timedelta(minutes=1), datetime.timedelta(days=1)):
                         col.checks["c19.rows." + kind] += 1
                         try:
                             if kind == "task":
-                                df = o.create_data_for_gantt_plotly(INIT, unit, finish_margin=margin, view_ready=True)
-                                exp = rows("t", want[0], "READY", "Task", unit) + rows("t", want[1], "WORKING", "Task", unit)
+                                df = o.create_data_for_gantt_plotly(init_, unit, finish_margin=margin, view_ready=True)
+                                exp = rows("t", want[0], "READY", "Task", unit, init_) + rows("t", want[1], "WORKING", "Task", unit, init_)
                             elif kind == "component":
-                                df = o.create_data_for_gantt_plotly(INIT, unit, finish_margin=margin, view_ready=True)
-                                exp = rows("c", want[0], "READY", "Component", unit) + rows("c", want[1], "WORKING", "Component", unit)
+                                df = o.create_data_for_gantt_plotly(init_, unit, finish_margin=margin, view_ready=True)
+                                exp = rows("c", want[0], "READY", "Component", unit, init_) + rows("c", want[1], "WORKING", "Component", unit, init_)
                             elif kind == "worker":
                                 team = BaseTeam("tm", ID="tm", worker_list=[o])
-                                df = team.create_data_for_gantt_plotly(INIT, unit, finish_margin=margin, view_ready=True, view_absence=True)
+                                df = team.create_data_for_gantt_plotly(init_, unit, finish_margin=margin, view_ready=True, view_absence=True)
                                 exp = None
                             else:
                                 wp = BaseWorkplace("wp", ID="wp", facility_list=[o])
-                                df = wp.create_data_for_gantt_plotly(INIT, unit, finish_margin=margin, view_ready=True, view_absence=True)
+                                df = wp.create_data_for_gantt_plotly(init_, unit, finish_margin=margin, view_ready=True, view_absence=True)
                                 exp = None
                         except Exception as e:
                             col.violation(viol("C19:create_data_for_gantt_plotly-raised:%s:%s" % (kind, type(e).__name__), {"kind": kind, "log": [int(s) for s in seq], "error": repr(e)}))
                             continue
                         if exp is not None:
                             if df != exp:
-                                col.violation(viol("C19:gantt-rows-wrong:%s" % kind, {"kind": kind, "log": [int(s) for s in seq], "margin": margin, "unit": str(unit), "got": df[:4], "expected": exp[:4]}))
+                                col.violation(viol("C19:gantt-rows-wrong:%s" % kind, {"kind": kind, "log": [int(s) for s in seq], "margin": margin, "unit": str(unit), "init": str(init_), "got": df[:4], "expected": exp[:4]}))
                         else:
                             # team / workplace rows: compare the (State, Start, Finish) multiset with the three run lists
                             nm = df[0]["Task"] if df else None
                             gotset = sorted((r["State"], r["Start"], r["Finish"]) for r in df)
                             e2 = []
                             for lst, st in ((want[0], "READY"), (want[1], "WORKING"), (want[2], "ABSENCE")):
-                                e2 += [(st, (INIT + a * unit).strftime(FMT), (INIT + (a + ln) * unit).strftime(FMT)) for a, ln in lst]
+                                e2 += [(st, (init_ + a * unit).strftime(FMT), (init_ + (a + ln) * unit).strftime(FMT)) for a, ln in lst]
                             if gotset != sorted(e2):
                                 col.violation(viol("C19:gantt-rows-wrong:%s" % kind, {"kind": kind, "log": [int(s) for s in seq], "margin": margin, "unit": str(unit), "got": gotset[:4], "expected": sorted(e2)[:4]}))
     return col
